@@ -474,3 +474,54 @@ package actions
 //@                 wake_on_commit(t.Edges.Subscriptions[k].ID) && (exists j int :: 0 <= j && j < len(dc) && cb.deliveries.subscription_id(dc[j]) == t.Edges.Subscriptions[k].ID)
 //@     invariant wake_frame: forall x uuid.UUID :: wake_on_commit(x) ==> old(wake_on_commit(x)) || (exists k int :: 0 <= k && k <= idx && x == t.Edges.Subscriptions[k].ID && filter_ok_row(t.Edges.Subscriptions[k].ID, m.Attributes))
 //@     invariant !dbfailed() || old(dbfailed())
+
+// ---- C06: the dead-letter routine. Given an outstanding delivery it, in one step, retires it on the source
+// subscription and enqueues its message exactly once on every live subscription of the (live) dead-letter topic
+// whose filter accepts it; no other delivery changes; the source subscription is woken on commit.
+//@ func deadLetterDelivery(ctx, tx, data, now, loggerName) (err)
+//@   property C06
+//@   uses tables notifyspec
+//@   requires tx != nil
+//@   requires source_outstanding: deliveries.exists(data.DeliveryID) && deliveries.completed_at$null(data.DeliveryID) && deliveries.expires_at(data.DeliveryID) > now &&
+//@            deliveries.message_id(data.DeliveryID) == data.DeliveryMessageID && deliveries.subscription_id(data.DeliveryID) == data.DeliverySubscriptionID &&
+//@            messages.exists(data.DeliveryMessageID)
+//@   ensures retired: err == nil ==> deliveries.exists(data.DeliveryID) && !deliveries.completed_at$null(data.DeliveryID)
+//@   ensures source_row_kept: deliveries.message_id(data.DeliveryID) == old(deliveries.message_id(data.DeliveryID)) && deliveries.subscription_id(data.DeliveryID) == old(deliveries.subscription_id(data.DeliveryID)) &&
+//@             deliveries.expires_at(data.DeliveryID) == old(deliveries.expires_at(data.DeliveryID)) && deliveries.attempts(data.DeliveryID) == old(deliveries.attempts(data.DeliveryID)) &&
+//@             deliveries.attempt_at(data.DeliveryID) == old(deliveries.attempt_at(data.DeliveryID)) && deliveries.published_at(data.DeliveryID) == old(deliveries.published_at(data.DeliveryID))
+//@   ensures others_kept: [C02] forall d Id :: old(deliveries.exists(d)) && d != data.DeliveryID ==> delivery_unchanged(d)
+//@   ensures forwarded_sound: err == nil ==> (forall d Id :: !old(deliveries.exists(d)) && deliveries.exists(d) ==>
+//@             deliveries.message_id(d) == data.DeliveryMessageID && live_topic(data.DeadLetterTopicID) && live_sub(deliveries.subscription_id(d)) &&
+//@             subscriptions.topic_id(deliveries.subscription_id(d)) == data.DeadLetterTopicID &&
+//@             filter_ok_row(deliveries.subscription_id(d), msg_attrs(data.DeliveryMessageID)) &&
+//@             deliveries.completed_at$null(d) && deliveries.attempts(d) == 0 && deliveries.published_at(d) == now &&
+//@             deliveries.expires_at(d) == now + subscriptions.message_ttl(deliveries.subscription_id(d)) &&
+//@             deliveries.attempt_at(d) == now + subscriptions.delivery_delay(deliveries.subscription_id(d)))
+//@   ensures forwarded_complete: err == nil && live_topic(data.DeadLetterTopicID) ==> (forall s Id :: live_sub(s) && subscriptions.topic_id(s) == data.DeadLetterTopicID &&
+//@             filter_ok_row(s, msg_attrs(data.DeliveryMessageID)) ==> (exists d Id :: !old(deliveries.exists(d)) && deliveries.exists(d) && deliveries.subscription_id(d) == s))
+//@   ensures forwarded_once: err == nil ==> (forall d1 Id, d2 Id :: !old(deliveries.exists(d1)) && deliveries.exists(d1) && !old(deliveries.exists(d2)) && deliveries.exists(d2) &&
+//@             deliveries.subscription_id(d1) == deliveries.subscription_id(d2) ==> d1 == d2)
+//@   ensures wakes: [C10] err == nil ==> wake_on_commit(data.DeliverySubscriptionID) && (forall d Id :: !old(deliveries.exists(d)) && deliveries.exists(d) ==> wake_on_commit(deliveries.subscription_id(d)))
+//@   ensures wake_kept: forall x uuid.UUID :: old(wake_on_commit(x)) ==> wake_on_commit(x)
+//@   ensures no_swallowed_failure: [C09] dbfailed() && !old(dbfailed()) ==> err != nil
+//@   modifies T:deliveries:*, CB:*, E:*ent.DeliveryCreate:, S:dbfailed, S:wake_on_commit
+//@   loop 1
+//@     invariant len(dlc) <= idx + 1
+//@     invariant flags: forall j int :: {dlc[j]} 0 <= j && j < len(dlc) ==> dlc[j] != nil && cb.deliveries.message_id(dlc[j]) == m.ID && cb.deliveries.message_id$set(dlc[j]) && cb.deliveries.subscription_id$set(dlc[j]) &&
+//@                 cb.deliveries.expires_at$set(dlc[j]) && cb.deliveries.published_at$set(dlc[j]) && cb.deliveries.published_at(dlc[j]) == now && cb.deliveries.attempt_at$set(dlc[j]) &&
+//@                 !cb.deliveries.completed_at$set(dlc[j]) && !cb.deliveries.attempts$set(dlc[j]) && !cb.deliveries.id$set(dlc[j])
+//@     invariant indexed: forall j int :: {dlc[j]} 0 <= j && j < len(dlc) ==>
+//@                 0 <= rowindex(dlTopic.Edges.Subscriptions, cb.deliveries.subscription_id(dlc[j])) && rowindex(dlTopic.Edges.Subscriptions, cb.deliveries.subscription_id(dlc[j])) <= idx &&
+//@                 dlTopic.Edges.Subscriptions[rowindex(dlTopic.Edges.Subscriptions, cb.deliveries.subscription_id(dlc[j]))].ID == cb.deliveries.subscription_id(dlc[j])
+//@     invariant live: forall j int :: {dlc[j]} 0 <= j && j < len(dlc) ==>
+//@                 live_sub(cb.deliveries.subscription_id(dlc[j])) && subscriptions.topic_id(cb.deliveries.subscription_id(dlc[j])) == dlTopic.ID
+//@     invariant accepted: forall j int :: {dlc[j]} 0 <= j && j < len(dlc) ==> filter_ok_row(cb.deliveries.subscription_id(dlc[j]), m.Attributes)
+//@     invariant stamped: forall j int :: {dlc[j]} 0 <= j && j < len(dlc) ==>
+//@                 cb.deliveries.expires_at(dlc[j]) == now + subscriptions.message_ttl(cb.deliveries.subscription_id(dlc[j])) &&
+//@                 cb.deliveries.attempt_at(dlc[j]) == now + subscriptions.delivery_delay(cb.deliveries.subscription_id(dlc[j]))
+//@     invariant increasing: forall j1 int, j2 int :: {dlc[j1], dlc[j2]} 0 <= j1 && j1 < j2 && j2 < len(dlc) ==>
+//@                 rowindex(dlTopic.Edges.Subscriptions, cb.deliveries.subscription_id(dlc[j1])) < rowindex(dlTopic.Edges.Subscriptions, cb.deliveries.subscription_id(dlc[j2]))
+//@     invariant complete: forall k int :: {dlTopic.Edges.Subscriptions[k]} 0 <= k && k <= idx && filter_ok_row(dlTopic.Edges.Subscriptions[k].ID, m.Attributes) ==>
+//@                 wake_on_commit(dlTopic.Edges.Subscriptions[k].ID) && (exists j int :: 0 <= j && j < len(dlc) && cb.deliveries.subscription_id(dlc[j]) == dlTopic.Edges.Subscriptions[k].ID)
+//@     invariant wake_kept: forall x uuid.UUID :: old(wake_on_commit(x)) ==> wake_on_commit(x)
+//@     invariant !dbfailed() || old(dbfailed())
